@@ -20,7 +20,7 @@ pub static IDENTITY: Scenario = Scenario {
     id: "C01",
     name: "c01-adversarial-handshakes",
     run,
-    quick_runs: 5000,
+    quick_runs: 12_000,
     thorough_runs: 150_000,
     rule: "one run = honest Network H (+ honest client P, + honest X online or offline) and a raw QUIC adversary holding only key K' making 1-6 handshake attempts, each with a PRNG role (dials H / is dialed by H plainly, expecting X, expecting K') and certificate strategy (replay of X's certificate, X's SPKI re-signed with K', own certificate [control], expired / not-yet-valid, no certificate, chains [own,X] and [X,own], single-byte mutation of own or of X's certificate), under PRNG loss/duplication/corruption during handshakes; distinct = distinct order signature (role, strategy, outcome per attempt); non-trivial = every run (an adversarial handshake always takes place)",
     real: super::REAL_NET,
